@@ -266,8 +266,8 @@ class DocRun:
     """Runs getters and a history of spacing assignments on one parsed ledger; collects the Coq cases
     and evaluates the monitors (the statements of C17 on the implementation)."""
 
-    def __init__(self, text: str, ops: list[list], get_sample: int, rng=None):
-        self.text, self.ops = text, ops
+    def __init__(self, text: str, ops: list[list], get_sample: int, rng=None, lf=None):
+        self.text, self.ops, self.lf = text, ops, lf
         self.cases: list[str] = []
         self.layout_case = ''
         self.fails: list[dict] = []
@@ -277,7 +277,8 @@ class DocRun:
         self.rng = rng
 
     def fail(self, sig, what, k):
-        self.fails.append({'sig': sig, 'what': what, 'witness': {'text': self.text, 'ops': self.ops[:k]}})
+        self.fails.append({'sig': sig, 'what': what,
+                           'witness': {'text': self.text, 'ops': self.ops[:k], 'lf': self.lf}})
 
     def index(self):
         return {id(t): n for n, t in enumerate(self.store)}
@@ -351,6 +352,21 @@ class DocRun:
                         return
 
     def run(self):
+        """With self.lf set, the token store's load factor is pinned to it for the whole run (documents of a few
+        dozen tokens then span many blocks, so long spacing runs are multi-block splices)."""
+        from harness import store_driver as sd
+        if self.lf is None:
+            return self._run()
+        pinned = getattr(sd, 'LF_PINNED', False)
+        sd.LF_PINNED = True
+        sd.set_load_factor(self.lf)
+        try:
+            return self._run()
+        finally:
+            sd.LF_PINNED = pinned
+            sd.set_load_factor(1000)
+
+    def _run(self):
         _, models, base, Newline, Whitespace, _ = impl()
         f = parse_file(self.text)
         self.store = f.token_store
@@ -395,17 +411,24 @@ class DocRun:
             raw_b = [(kind_of(t), t.raw_text) for t in m.raw_spacing_before]
             raw_a = [(kind_of(t), t.raw_text) for t in m.raw_spacing_after]
             other_ids = [id(t) for t in self.store if kind_of(t) == 2]
-            if kind == 'str':
-                setattr(m, 'spacing_' + side, payload)
-                op = f'(OSet{side.capitalize()} {common.coq_str(payload)})'
-            else:
-                new = [(Whitespace if kk == 0 else Newline).from_raw_text(s) for kk, s in payload]
-                setattr(m, 'raw_spacing_' + side, new)
-                op = f'(ORaw{side.capitalize()} {coq_toks([(kk, s) for kk, s in payload])})'
+            try:
+                if kind == 'str':
+                    op = f'(OSet{side.capitalize()} {common.coq_str(payload)})'
+                    setattr(m, 'spacing_' + side, payload)
+                else:
+                    new = [(Whitespace if kk == 0 else Newline).from_raw_text(s) for kk, s in payload]
+                    op = f'(ORaw{side.capitalize()} {coq_toks([(kk, s) for kk, s in payload])})'
+                    setattr(m, 'raw_spacing_' + side, new)
+                readback = getattr(m, 'spacing_' + side)
+                toks2 = dump(self.store)
+                idx2 = self.index()
+                idx2[id(m.first_token)]
+            except Exception as e:
+                self.fail('C17:set-frame', f'{type(m).__name__}.spacing_{side} = {payload!r} (was {old!r}) raised '
+                          f'{type(e).__name__}: {e}' + (f' [load factor {self.lf}]' if self.lf else ''), k)
+                break
             self.stats['sets'] += 1
-            toks2 = dump(self.store)
-            idx2 = self.index()
-            readback = getattr(m, 'spacing_' + side)
+            self.stats['max_run'] = max(self.stats.get('max_run', 0), len(raw_b), len(raw_a))
             self.cases.append(
                 f'mkcase {coq_toks(toks)} {i} {j} {coq_toks(raw_b)} {coq_toks(raw_a)} {op} '
                 f'{coq_toks(toks2)} {idx2[id(m.first_token)]} {common.coq_str(readback)}')
